@@ -455,6 +455,15 @@ def compare_line(case, i, il, m, s, tags):
                 return None
             for t in tags:
                 _reported[t] = _reported.get(t, 0) + 1
+        if name == "ser" and len(bad) == 1 and "text=TRUNC" in spec and il != m and "ser.unchecked-append" in _known():
+            # The recorded finding is identified by its call site (the emitters ignore failed appends), not by one
+            # input: under another buffer-growth policy the same site drops other pieces at other allocation indices.
+            # A truncated text from a serialization workload with nothing else wrong is that finding; that the Lean
+            # model no longer predicts it byte for byte is a broken correspondence, reported as such below.
+            _suppressed["ser.unchecked-append"] = _suppressed.get("ser.unchecked-append", 0) + 1
+            _model_div.setdefault(case["id"], (i, "serializer truncation (known finding ser.unchecked-append) at a place the Lean "
+                                               "allocation model does not predict: implementation differs from the model"))
+            return None
         return ("spec", "; ".join(bad))
     if m.startswith("FAULT"):
         # the model does not cover this code shape (a structural fact of st_alloc.py is false) or would free a
